@@ -12,9 +12,9 @@ package cert
 // content is in effect before the next load (TakesEffect), and two loads with no publication
 // between them are at least refresh/3 apart (NoSpin; lower bound only).
 //
-// No step is decided by sleeping.  Path source: the key halves of the first and of the last
-// certificate of every content are named pipes ("1-key.pem", "9-key.pem"); the loader blocks
-// in them, which tells the harness "load j has begun" (first gate) and "load j has read
+// No step is decided by sleeping.  Path source: the certificate half of the first and the key half of the last
+// certificate of every content are named pipes ("1-cert.pem", "9-key.pem"); the loader blocks
+// in them (the first file and the last file the loader reads), which tells the harness "load j has begun" (first gate) and "load j has read
 // every file" (last gate).  The directory is changed only while the loader is held in a gate:
 // at the last gate of load j (everything read) or, when load j was aborted by an unreadable
 // file, at the first gate of load j+1 (only the names have been listed; the contents may
@@ -32,6 +32,7 @@ import (
 	"net/http/httptest"
 	"os"
 	"path/filepath"
+	"runtime"
 	"sort"
 	"strings"
 	"sync"
@@ -212,20 +213,31 @@ func c11SrcStates(h *c11SrcHistory) ([]*c11State, error) {
 // returns, everything published so far has been stored.
 type c11Observed struct {
 	inner Source
+	mu    sync.Mutex
 	in    chan []tls.Certificate
 	out   chan []tls.Certificate
 }
 
+func (o *c11Observed) input() chan []tls.Certificate {
+	o.mu.Lock()
+	defer o.mu.Unlock()
+	return o.in
+}
+
 func (o *c11Observed) LoadClientCAs() (*x509.CertPool, error) { return o.inner.LoadClientCAs() }
 func (o *c11Observed) Certificates() chan []tls.Certificate {
-	o.in = o.inner.Certificates()
+	in := o.inner.Certificates()
+	o.mu.Lock()
+	o.in = in
+	o.mu.Unlock()
 	return o.out
 }
 
 func (o *c11Observed) drain() (pubs [][]tls.Certificate) {
+	in := o.input()
 	for {
 		select {
-		case cs, ok := <-o.in:
+		case cs, ok := <-in:
 			if !ok {
 				return
 			}
@@ -350,7 +362,7 @@ type c11PathRun struct {
 func (r *c11PathRun) arm(first bool) {
 	name := "9-key.pem"
 	if first {
-		name = "1-key.pem"
+		name = "1-cert.pem"
 	}
 	p := filepath.Join(r.dir, name)
 	go func() {
@@ -367,7 +379,7 @@ func (r *c11PathRun) arm(first bool) {
 func (r *c11PathRun) pass(ev c11GateEv, data []byte) error {
 	name := "9-key.pem"
 	if ev.first {
-		name = "1-key.pem"
+		name = "1-cert.pem"
 	}
 	p := filepath.Join(r.dir, name)
 	os.Remove(p)
@@ -379,7 +391,7 @@ func (r *c11PathRun) pass(ev c11GateEv, data []byte) error {
 	return ev.w.Close()
 }
 
-func c11IsGate(name string) bool { return name == "1-key.pem" || name == "9-key.pem" }
+func c11IsGate(name string) bool { return name == "1-cert.pem" || name == "9-key.pem" }
 
 // apply makes the directory hold state st (the gates stay pipes).
 func (r *c11PathRun) apply(st *c11State) error {
@@ -433,7 +445,7 @@ func c11RunPath(h *c11SrcHistory, strict bool, root string, report c11SrcReport)
 		return 0, 0, err
 	}
 	for _, st := range states {
-		if _, ok := st.files["1-key.pem"]; !ok {
+		if _, ok := st.files["1-cert.pem"]; !ok {
 			return 0, 0, fmt.Errorf("content without the gate certificate 1")
 		}
 		if _, ok := st.files["9-key.pem"]; !ok {
@@ -445,7 +457,7 @@ func c11RunPath(h *c11SrcHistory, strict bool, root string, report c11SrcReport)
 		return 0, 0, err
 	}
 	r := &c11PathRun{dir: dir, events: make(chan c11GateEv, 4)}
-	for _, g := range []string{"1-key.pem", "9-key.pem"} {
+	for _, g := range []string{"1-cert.pem", "9-key.pem"} {
 		if err := syscall.Mkfifo(filepath.Join(dir, g), 0600); err != nil {
 			return 0, 0, err
 		}
@@ -462,7 +474,7 @@ func c11RunPath(h *c11SrcHistory, strict bool, root string, report c11SrcReport)
 	}
 	defer func() {
 		// let everything blocked in a pipe go, then remove the directory
-		for _, g := range []string{"1-key.pem", "9-key.pem"} {
+		for _, g := range []string{"1-cert.pem", "9-key.pem"} {
 			if f, e := os.OpenFile(filepath.Join(dir, g), os.O_RDWR|syscall.O_NONBLOCK, 0); e == nil {
 				defer f.Close()
 			}
@@ -514,7 +526,7 @@ func c11RunPath(h *c11SrcHistory, strict bool, root string, report c11SrcReport)
 		if reading >= 0 {
 			pubs := obs.drain()
 			// pace
-			if h.Hist[reading].Pub == "" && !ended.IsZero() {
+			if h.Hist[reading].Pub == "" && len(pubs) == 0 && !ended.IsZero() {
 				if gap := ev.at.Sub(ended); gap < c11Refresh/3 {
 					report("spin", h.Hist[reading].Kind, h.Hist[reading].Content, "", fmt.Sprintf("load %d (%s %s) published nothing, yet the directory was loaded again after %v (refresh %v)", reading+1, h.Hist[reading].Kind, h.Hist[reading].Content, gap, c11Refresh))
 				}
@@ -541,7 +553,7 @@ func c11RunPath(h *c11SrcHistory, strict bool, root string, report c11SrcReport)
 		}
 		reading = cur
 		complete = false
-		if err := r.pass(ev, states[reading].files["1-key.pem"].data); err != nil {
+		if err := r.pass(ev, states[reading].files["1-cert.pem"].data); err != nil {
 			return loads, evals, err
 		}
 		ended = time.Now()
@@ -549,6 +561,8 @@ func c11RunPath(h *c11SrcHistory, strict bool, root string, report c11SrcReport)
 }
 
 // ---------------------------------------------------------------- http source
+
+var c11HTTPSeq int64
 
 func c11RunHTTP(h *c11SrcHistory, strict bool, report c11SrcReport) (loads, evals int, err error) {
 	states, err := c11SrcStates(h)
@@ -562,6 +576,8 @@ func c11RunHTTP(h *c11SrcHistory, strict bool, report c11SrcReport) (loads, eval
 	load := 0 // number of listing requests seen
 	var snap *c11State
 	var lastReq time.Time
+	t0 := time.Now()
+	var reqlog []string
 	finished := make(chan struct{})
 	var once sync.Once
 	park := make(chan struct{})
@@ -575,16 +591,25 @@ func c11RunHTTP(h *c11SrcHistory, strict bool, report c11SrcReport) (loads, eval
 			}
 		}
 	}
+	// Watchers of finished histories live on and poll their old address, which the kernel may
+	// hand to a new server: every history serves under its own path token and ignores the rest.
+	tok := fmt.Sprintf("/h%d-", atomic.AddInt64(&c11HTTPSeq, 1))
 	srv := httptest.NewServer(http.HandlerFunc(func(w http.ResponseWriter, r *http.Request) {
+		if !strings.HasPrefix(r.URL.Path, tok) {
+			http.NotFound(w, r)
+			return
+		}
+		r.URL.Path = "/" + strings.TrimPrefix(strings.TrimPrefix(r.URL.Path, tok), "/")
 		mu.Lock()
+		reqlog = append(reqlog, fmt.Sprintf("%dms %s", time.Since(t0)/time.Millisecond, r.URL.Path))
 		if r.URL.Path == "/list" {
 			now := time.Now()
 			if load >= 1 && load <= n { // load `load` is over: judge it
 				j := load - 1
 				pubs := obs.drain()
-				if h.Hist[j].Pub == "" {
+				if h.Hist[j].Pub == "" && len(pubs) == 0 {
 					if gap := now.Sub(lastReq); gap < c11Refresh/3 {
-						report("spin", h.Hist[j].Kind, h.Hist[j].Content, "", fmt.Sprintf("load %d (%s %s) published nothing, yet the listing was fetched again after %v (refresh %v)", j+1, h.Hist[j].Kind, h.Hist[j].Content, gap, c11Refresh))
+						report("spin", h.Hist[j].Kind, h.Hist[j].Content, "", fmt.Sprintf("load %d (%s %s) published nothing, yet the listing was fetched again after %v (refresh %v); requests: %v", j+1, h.Hist[j].Kind, h.Hist[j].Content, gap, c11Refresh, reqlog))
 					}
 				}
 				evals += c11JudgeStep(h, j, pubs, cfg, strict, report)
@@ -610,8 +635,14 @@ func c11RunHTTP(h *c11SrcHistory, strict bool, report c11SrcReport) (loads, eval
 			case "garbage":
 				w.Header().Set("Content-Type", "text/html")
 				fmt.Fprint(w, "<html><body><h1>Down for maintenance</h1></body></html>\n")
-			case "down":
-				drop(w)
+			case "down": // the connection breaks in the middle of the answer (nothing the client would retry)
+				if hj, ok := w.(http.Hijacker); ok {
+					if c, buf, e := hj.Hijack(); e == nil {
+						buf.WriteString("HTTP/1.1 200 OK\r\nContent-Type: text/plain\r\nContent-Length: 4096\r\n\r\n1-cert.pem\n")
+						buf.Flush()
+						c.Close()
+					}
+				}
 			default:
 				fmt.Fprint(w, strings.Join(st.names(), "\n")+"\n")
 			}
@@ -640,7 +671,7 @@ func c11RunHTTP(h *c11SrcHistory, strict bool, report c11SrcReport) (loads, eval
 		srv.Close()
 	}()
 	mu.Lock()
-	obs = &c11Observed{inner: HTTPSource{CertURL: srv.URL + "/list", Refresh: c11Refresh}, out: make(chan []tls.Certificate)}
+	obs = &c11Observed{inner: HTTPSource{CertURL: srv.URL + tok + "/list", Refresh: c11Refresh}, out: make(chan []tls.Certificate)}
 	cfg, err = TLSConfig(obs, strict, 0, 0, nil)
 	mu.Unlock()
 	if err != nil {
@@ -706,7 +737,12 @@ func c11SourcesPart(envName, source string, selftest bool) (cases, loads, evals,
 		go func() {
 			defer wg.Done()
 			defer func() { <-sem }()
+			failed := false
 			report := func(clause, kind, damage, got, msg string) {
+				if failed {
+					return // after the first disagreement the specification's later expectations are moot
+				}
+				failed = true
 				if selftest {
 					mu.Lock()
 					rejected = true
@@ -795,7 +831,13 @@ func c11FilePart(envName string) (cases, evals int64) {
 				return err
 			}
 			var pubs [][]tls.Certificate
-			for cs := range obs.in { // a static source: one set, then the channel is closed
+			var in chan []tls.Certificate
+			for in == nil { // TLSConfig asks the source for its channel in a goroutine
+				if in = obs.input(); in == nil {
+					runtime.Gosched()
+				}
+			}
+			for cs := range in { // a static source: one set, then the channel is closed
 				pubs = append(pubs, cs)
 				obs.out <- cs
 				obs.out <- cs
